@@ -65,6 +65,13 @@ type (
 	}
 	// cpMap is a map with known contents (a reference: copies share the object).
 	cpMap struct{ O *cpMapObj }
+	// cpClosure is a function literal with what it captured.
+	cpClosure struct {
+		Fn   *ssa.Function
+		Bind []cpVal
+	}
+	// cpIterSeq is the model of an iter.Seq over known values (strings.SplitSeq of constants).
+	cpIterSeq struct{ Vals []cpVal }
 )
 
 type cpMapObj struct {
@@ -434,6 +441,10 @@ func (e *cpEngine) decide0() bool {
 }
 
 func (e *cpEngine) call(fn *ssa.Function, args []cpVal, depth int) []cpVal {
+	return e.callBound(fn, args, nil, depth)
+}
+
+func (e *cpEngine) callBound(fn *ssa.Function, args []cpVal, bind []cpVal, depth int) []cpVal {
 	if depth > e.MaxDepth {
 		e.fail("call depth")
 	}
@@ -449,8 +460,12 @@ func (e *cpEngine) call(fn *ssa.Function, args []cpVal, depth int) []cpVal {
 			fr.env[p] = cpUnk{ID: fn.Name() + ":" + p.Name()}
 		}
 	}
-	for _, fv := range fn.FreeVars {
-		fr.env[fv] = cpUnk{ID: fn.Name() + ":free:" + fv.Name()}
+	for i, fv := range fn.FreeVars {
+		if i < len(bind) {
+			fr.env[fv] = bind[i]
+		} else {
+			fr.env[fv] = cpUnk{ID: fn.Name() + ":free:" + fv.Name()}
+		}
 	}
 	var prev *ssa.BasicBlock
 	b := fn.Blocks[0]
@@ -595,6 +610,11 @@ func (e *cpEngine) havoc(v cpVal, d int) {
 		}
 	case cpIface:
 		e.havoc(x.V, d+1)
+	case cpClosure:
+		// whoever gets the closure can call it: what it captured may change
+		for _, b := range x.Bind {
+			e.havoc(b, d+1)
+		}
 	}
 }
 
@@ -688,7 +708,19 @@ func (e *cpEngine) eval(fr *cpFrame, v ssa.Value, depth int) cpVal {
 			return sl
 		}
 		return e.resultOf(fr, v, "opaque")
-	case *ssa.MakeChan, *ssa.MakeClosure, *ssa.Range, *ssa.Next, *ssa.Select, *ssa.SliceToArrayPointer, *ssa.MultiConvert:
+	case *ssa.MakeClosure:
+		cl := cpClosure{}
+		if f, ok := x.Fn.(*ssa.Function); ok {
+			cl.Fn = f
+		}
+		for _, b := range x.Bindings {
+			cl.Bind = append(cl.Bind, e.get(fr, b))
+		}
+		if cl.Fn == nil {
+			return e.resultOf(fr, v, "opaque")
+		}
+		return cl
+	case *ssa.MakeChan, *ssa.Range, *ssa.Next, *ssa.Select, *ssa.SliceToArrayPointer, *ssa.MultiConvert:
 		return e.resultOf(fr, v, "opaque")
 	case *ssa.Extract:
 		t := e.get(fr, x.Tuple)
@@ -771,6 +803,19 @@ func (e *cpEngine) eval(fr *cpFrame, v ssa.Value, depth int) cpVal {
 				if tb, ok := x.Type().Underlying().(*types.Basic); ok && fb.Info()&types.IsInteger != 0 && tb.Info()&types.IsInteger != 0 && e.P.sizeOf(tb) >= e.P.sizeOf(fb) {
 					return a
 				}
+			}
+			// so do the conversions between pointers, unsafe.Pointer and uintptr (address arithmetic on an unknown address)
+			isAddr := func(t types.Type) bool {
+				switch u := t.Underlying().(type) {
+				case *types.Pointer:
+					return true
+				case *types.Basic:
+					return u.Kind() == types.UnsafePointer || u.Kind() == types.Uintptr
+				}
+				return false
+			}
+			if isAddr(x.X.Type()) && isAddr(x.Type()) {
+				return a
 			}
 			return e.fresh("conv")
 		}
@@ -1008,7 +1053,7 @@ func (e *cpEngine) binop(x *ssa.BinOp, a, b cpVal) cpVal {
 			if r := cmp(0); r != nil {
 				return r
 			}
-		case cpPtr, cpIface, cpFn, *cpRType, cpMap, cpSlice:
+		case cpPtr, cpIface, cpFn, *cpRType, cpMap, cpSlice, cpClosure:
 			_ = bv
 			if r := cmp(1); r != nil && (x.Op == token.EQL || x.Op == token.NEQ) {
 				return r
@@ -1123,8 +1168,44 @@ func (e *cpEngine) evalCall(fr *cpFrame, x *ssa.Call, depth int) cpVal {
 	}
 	if g == nil && !cc.IsInvoke() {
 		// a call of a function value the fold knows
-		if f, ok := e.get(fr, cc.Value).(cpFn); ok {
+		switch f := e.get(fr, cc.Value).(type) {
+		case cpFn:
 			g = f.Fn
+		case cpClosure:
+			if f.Fn.Blocks != nil && depth < e.MaxDepth {
+				args := make([]cpVal, len(cc.Args))
+				for i, a := range cc.Args {
+					args[i] = e.get(fr, a)
+				}
+				return e.finishCall(x, e.callBound(f.Fn, args, f.Bind, depth+1))
+			}
+		case cpIterSeq:
+			// seq(yield): yield each value until it says stop
+			if len(cc.Args) == 1 {
+				y := e.get(fr, cc.Args[0])
+				for _, val := range f.Vals {
+					var res []cpVal
+					switch yf := y.(type) {
+					case cpClosure:
+						res = e.callBound(yf.Fn, []cpVal{val}, yf.Bind, depth+1)
+					case cpFn:
+						res = e.call(yf.Fn, []cpVal{val}, depth+1)
+					default:
+						e.fail("iterator over an unknown yield function")
+					}
+					if len(res) != 1 {
+						e.fail("yield function without a result")
+					}
+					b, ok := res[0].(cpBool)
+					if !ok {
+						e.fail("yield function with an unknown result")
+					}
+					if !b.V {
+						break
+					}
+				}
+				return cpNil{}
+			}
 		}
 	}
 	if g == nil && cc.IsInvoke() {
